@@ -98,7 +98,10 @@ func baseWorld(codes [3]*Code) *world {
 	w.acc[addrX] = &racct{exists: true, bal: 3}
 	bals := []int64{5, 5, 0}
 	for i := range addrK {
-		w.acc[addrK[i]] = &racct{exists: true, bal: bals[i], code: codes[i].Bytes, slots: [2]uint64{7, 0}}
+		// slot 0 starts with the value the contract's FIRST action writes in transaction 2 (tag+2): transaction 1
+		// leaves tag+1 behind (finalised, not yet in the trie), transaction 2 writes the on-disk value back - the
+		// one history in which "current", "finalised by an earlier transaction" and "on disk" are three different things
+		w.acc[addrK[i]] = &racct{exists: true, bal: bals[i], code: codes[i].Bytes, slots: [2]uint64{uint64(tagOf(i, 0)) + 2, 0}}
 	}
 	return w
 }
